@@ -217,7 +217,8 @@ Proof.
     destruct nm as [n|]; [|exact (IHp Hc)].
     apply lift_crash in Hc. destruct Hc as [Hc | (t & _ & Hc)]; [eapply as_type_info_no_crash, Hc|].
     apply lift_crash in Hc. destruct Hc as [Hc | (rest & _ & Hc)]; [exact (IHp Hc) | discriminate].
-  - apply lift_crash in Hc. destruct Hc as [Hc | (trs & _ & Hc)]; [|discriminate].
+  - destruct (has_prefix (cn_name (snd lastp)) K.COLLECTION_TYPE && match before_rev with [] => true | _ => false end); [discriminate|].
+    apply lift_crash in Hc. destruct Hc as [Hc | (trs & _ & Hc)]; [|discriminate].
     revert Hc. generalize (if has_prefix (cn_name (snd lastp)) K.COLLECTION_TYPE then rev before_rev else cn_params ast) as ps.
     induction ps as [|[nm cls] ps IHp]; intros Hc; [discriminate|].
     cbv zeta in Hc. apply lift_crash in Hc. destruct Hc as [Hc | (t & _ & Hc)]; [eapply as_type_info_no_crash, Hc|].
